@@ -64,10 +64,12 @@ func (f *WithZipReader) Call(s *slip.Scope, args slip.List, depth int) (result s
 		slip.TypePanic(s, depth, "args[0]", args[0], "symbol")
 	}
 	d2 := depth + 1
-	args[1] = slip.EvalArg(s, args, 1, d2)
+	// The value is not stored in the form, the form is evaluated again on
+	// the next call.
+	stream := slip.EvalArg(s, args, 1, d2)
 	var r io.Reader
-	if r, ok = args[1].(io.Reader); !ok {
-		slip.TypePanic(s, depth, "args[1]", args[1], "input-stream")
+	if r, ok = stream.(io.Reader); !ok {
+		slip.TypePanic(s, depth, "args[1]", stream, "input-stream")
 	}
 	z, err := gzip.NewReader(r)
 	if err != nil {
